@@ -246,7 +246,7 @@ def static_part(ctx):
     ctx.model_cases += len(lines)
     ctx.extra.update({'programs': len(prog), 'seeded_roots': len(res['roots']), 'functions_scanned': res['n_functions_scanned'],
                       'statically_rejected': rejected, 'excluded_from_static_program': sorted(res['excluded']), 'static_out_of_model': STATIC_OUT_OF_MODEL,
-                      'out_of_scope_no_seed_not_reachable': res['out_of_scope'], 'get_rng_as_modelled': res['get_rng_ok'], 'unmodelled_callables_with_effects': res['unmodelled'],
+                      'out_of_scope_no_seed_not_reachable': {q: (res.get('why', {}).get(q) or ['uses np.random / random directly'])[0] for q in res['out_of_scope']}, 'get_rng_as_modelled': res['get_rng_ok'], 'unmodelled_callables_with_effects': res['unmodelled'],
                       'gen_file': 'coq/theories/Gen/Effects.v (regenerated this run)'})
     return prog, full, rejected, res
 
